@@ -41,12 +41,12 @@ CONSTANTS
   D1Fixed, D2Fixed,
   PNatSet, CNatSet, FpSet,     \* attribute domains explored by Init (subsets of NATs, CNATs, FPs)
   UnknownTargets,              \* TRUE: answers may name a session id the broker never saw
+  Bridges,                     \* configured bridge list (subset of {"default", "b2"}); "unlisted" is never configured
   None
 
 NATs  == {"unrestricted", "restricted", "unknown"}
 CNATs == {"unrestricted", "restricted", "unknown", "absent"}   \* as sent on the wire
 FPs   == {"default", "b2", "unlisted"}                          \* requested bridge
-Bridges == {"default", "b2"}                                   \* configured bridge list
 RelayURL(fp) == IF fp = "default" THEN "wss://default.example/" ELSE "wss://b2.example/"
 
 VARIABLES
